@@ -84,8 +84,9 @@ def fit_minuit_v1(fcn, bounds_dict={}, hesse=True, minos=False, **kwargs):
         print("MINOS Time", time.time() - now)
     ndf = len(m.list_of_vary_param())
     fcn.vm.set_all(dict(m.values))
+    # every parameter (fixed ones included), as the other minimisers return
     ret = FitResult(
-        dict(m.values), fcn, m.fval, ndf=ndf, success=m.migrad_ok()
+        fcn.get_params(), fcn, m.fval, ndf=ndf, success=m.migrad_ok()
     )
     ret.set_error(dict(m.errors))
     return ret
@@ -142,8 +143,9 @@ def fit_minuit_v2(fcn, bounds_dict={}, hesse=True, minos=False, **kwargs):
         print("MINOS Time", time.time() - now)
     ndf = len(var_names)
     fcn.vm.set_all(dict(zip(var_names, m.values)))
+    # every parameter (fixed ones included), as the other minimisers return
     ret = FitResult(
-        dict(zip(var_names, m.values)), fcn, m.fval, ndf=ndf, success=m.valid
+        fcn.get_params(), fcn, m.fval, ndf=ndf, success=m.valid
     )
     # print(m.errors)
     ret.set_error(dict(zip(var_names, m.errors)))
